@@ -169,6 +169,8 @@ def run_property(prop, mod, tier, only=None):
     for key, path, what in violations:
         print("VIOLATION property=%s replay=%s" % (prop, path))
         log("  %s: %s" % (key, what))
+    if not kc.results and not kc.compile_failures and not inconclusive:
+        inconclusive.append("no harness was run")
     if violations:
         return common.EXIT_VIOLATION
     if inconclusive:
